@@ -506,6 +506,10 @@ def run(chk):
 
     chk.guard("O8.4", c08.STEPWISE, c08.stepwise, chk)
     chk.guard("O8.6", c08.UNBOUND, c08.stepwise_wiring, chk)
+    # "demand changes by at most rate x (span + interval)": one step of LinearController moves demand by exactly the
+    # interval it is HANDED times the rate (shared with C08): a step size fixed at construction ignores the interval
+    # the loop passes, and an adjusted interval (the attribute can be re-assigned) no longer bounds the change
+    chk.guard("O8.1", c08.LINEAR, c08.linear, chk)
 
 
 def run_thorough(chk):
